@@ -264,7 +264,9 @@ static EVP_PKEY *pool_get(const char *base)
 	snprintf(path, sizeof path, "%s/%s.pem", keys_dir, base);
 	f = fopen(path, "r");
 	if (!f) die("no key file %s", path);
+	ERR_set_mark();
 	EVP_PKEY *k = PEM_read_PrivateKey(f, NULL, NULL, NULL);
+	ERR_pop_to_mark();
 	fclose(f);
 	if (!k) die("cannot parse %s", path);
 	snprintf(pool[npool].base, sizeof pool[npool].base, "%s", base);
@@ -297,6 +299,7 @@ static EVP_PKEY *fresh_key(const char *kind, int bits)
 	else if (!strcmp(kind, "secp256k1")) k = EVP_PKEY_Q_keygen(NULL, NULL, "EC", "secp256k1");
 	else if (!strcmp(kind, "Ed25519")) k = EVP_PKEY_Q_keygen(NULL, NULL, "ED25519");
 	else if (!strcmp(kind, "Ed448")) k = EVP_PKEY_Q_keygen(NULL, NULL, "ED448");
+	else k = EVP_PKEY_Q_keygen(NULL, NULL, "EC", kind);	/* any other curve OpenSSL knows by name */
 	if (!k) die("keygen %s failed", kind);
 	return k;
 }
@@ -475,7 +478,18 @@ static const EVP_MD *md_for(const char *alg)
 	return NULL;
 }
 /* sign text with pkey under alg; returns malloc'd raw JWS signature */
+/* The driver's own OpenSSL work must leave the thread's OpenSSL error queue exactly as the
+ * library left it (ERR_set_mark / ERR_pop_to_mark), neither adding to it nor clearing it. */
+static unsigned char *sign_asym_(EVP_PKEY *k, const char *alg, const char *text, size_t tlen, size_t *slen, int width);
 static unsigned char *sign_asym(EVP_PKEY *k, const char *alg, const char *text, size_t tlen, size_t *slen, int width)
+{
+	unsigned char *r;
+	ERR_set_mark();
+	r = sign_asym_(k, alg, text, tlen, slen, width);
+	ERR_pop_to_mark();
+	return r;
+}
+static unsigned char *sign_asym_(EVP_PKEY *k, const char *alg, const char *text, size_t tlen, size_t *slen, int width)
 {
 	EVP_MD_CTX *c = EVP_MD_CTX_new();
 	EVP_PKEY_CTX *pc = NULL;
@@ -512,11 +526,19 @@ static unsigned char *sign_asym(EVP_PKEY *k, const char *alg, const char *text, 
 fail:
 	EVP_MD_CTX_free(c);
 	free(sig);
-	ERR_clear_error();
 	return NULL;
 }
 /* independent verification: 1 valid, 0 invalid */
+static int verify_asym_(EVP_PKEY *k, const char *alg, const char *text, size_t tlen, const unsigned char *sig, size_t slen);
 static int verify_asym(EVP_PKEY *k, const char *alg, const char *text, size_t tlen, const unsigned char *sig, size_t slen)
+{
+	int r;
+	ERR_set_mark();
+	r = verify_asym_(k, alg, text, tlen, sig, slen);
+	ERR_pop_to_mark();
+	return r;
+}
+static int verify_asym_(EVP_PKEY *k, const char *alg, const char *text, size_t tlen, const unsigned char *sig, size_t slen)
 {
 	EVP_MD_CTX *c = EVP_MD_CTX_new();
 	EVP_PKEY_CTX *pc = NULL;
@@ -548,7 +570,6 @@ static int verify_asym(EVP_PKEY *k, const char *alg, const char *text, size_t tl
 done:
 	EVP_MD_CTX_free(c);
 	free(der);
-	ERR_clear_error();
 	return ok;
 }
 static unsigned char *sign_hmac(const char *alg, const unsigned char *key, size_t klen, const char *text, size_t tlen, size_t *slen)
@@ -683,7 +704,16 @@ static const char *verr_name(jwt_value_error_t e)
  * Returns {"base","bits","var","pub":0/1 (public components equal),
  * "prv":0/1 (private components equal, or n/a=0)} by comparing the parsed PEM
  * (or the oct bytes) with the key the descriptor names. */
+static json_t *project_mat_(const jwk_item_t *it, json_t *kd);
 static json_t *project_mat(const jwk_item_t *it, json_t *kd)
+{
+	json_t *r;
+	ERR_set_mark();
+	r = project_mat_(it, kd);
+	ERR_pop_to_mark();
+	return r;
+}
+static json_t *project_mat_(const jwk_item_t *it, json_t *kd)
 {
 	json_t *m = json_object();
 	const char *pem = jwks_item_pem(it);
@@ -752,8 +782,7 @@ static json_t *project_mat(const jwk_item_t *it, json_t *kd)
 			}
 			EVP_PKEY_free(k);
 		}
-		ERR_clear_error();
-	}
+		}
 	json_object_set_new(m, "pem", json_integer(pem ? 1 : 0));
 	json_object_set_new(m, "pemok", json_integer(pemok));
 	json_object_set_new(m, "pempriv", json_integer(pempriv));
